@@ -115,8 +115,9 @@ class QintImp(int, Qtype):
                 ex = Or(ex, x)
 
         if len(tleft[1]) < len(tcomp[1]):
+            # the right operand is wider: left > right only if its extra high bits are all zero
             for x in tcomp[1][len(tleft[1]) :]:
-                ex = Or(ex, x)
+                ex = And(ex, Not(x))
 
         return (bool, ex)
 
